@@ -767,15 +767,33 @@ def d3_definitional_accessors(ctx):
     site = ctx.site(SURF, fn)
     u, v = au.params(fn, skip_self=True)[:2]
     ok = False
-    for st in fn.body:
-        if isinstance(st, ast.If) and isinstance(st.test, ast.Compare) and isinstance(st.test.ops[0], (ast.In, ast.NotIn)) \
-                and au.src(st.test.left) == f"({u}, {v})" and au.is_self_attr(st.test.comparators[0], "_half_edges"):
-            pos, neg = (st.body, st.orelse) if isinstance(st.test.ops[0], ast.In) else (st.orelse, st.body)
-            reads = [n for s_ in pos for n in au.walk(s_) if isinstance(n, ast.Subscript) and au.is_self_attr(n.value, "_half_edges")]
-            nones = [r for s_ in neg for r in au.stmts([s_]) if isinstance(r, ast.Return)]
-            ok = bool(reads) and all(au.src(r.slice) == f"({u}, {v})" for r in reads) and bool(nones) \
-                and all(au.src(r.value).replace(" ", "") in ("None", "(None,None,None)") for r in nones) \
-                and not any(isinstance(n, ast.Subscript) and au.is_self_attr(n.value, "_half_edges") for s_ in neg for n in au.walk(s_))
+    from .. import decide
+
+    def atom(e):
+        if isinstance(e, ast.Compare) and len(e.ops) == 1 and isinstance(e.ops[0], (ast.In, ast.NotIn)) \
+                and au.src(e.left) == f"({u}, {v})" and au.is_self_attr(e.comparators[0], "_half_edges"):
+            return ("present", isinstance(e.ops[0], ast.In))
+        if isinstance(e, ast.Name) and e.id in au.params(fn):
+            return e.id
+        if isinstance(e, ast.Compare) and len(e.ops) == 1 and isinstance(e.ops[0], (ast.Is, ast.IsNot)) and au.is_self_attr(e.left) \
+                and au.const(e.comparators[0], 0) is None:
+            return ("cold:" + e.left.attr, isinstance(e.ops[0], ast.Is))
+        return None
+    try:
+        names, rows = decide.table(fn.body, atom)
+        ok = "present" in names
+        for env, taken in rows:
+            if len(taken) != 1:
+                ok = False
+                continue
+            rets = [st for st in taken[0].stmts if isinstance(st, ast.Return)]
+            reads = [n for st in rets for n in au.walk(st) if isinstance(n, ast.Subscript) and au.is_self_attr(n.value, "_half_edges")]
+            if env["present"]:
+                ok = ok and bool(rets) and bool(reads) and all(au.src(r.slice) == f"({u}, {v})" for r in reads)
+            else:
+                ok = ok and bool(rets) and not reads and all(au.src(r.value).replace(" ", "") in ("None", "(None,None,None)") for r in rets)
+    except decide.Unknown:
+        ok = False
     ctx.check(ok, "C01-D3", site, "direct_face(u, v) does not answer from the record of (u, v) exactly when that half edge exists (None otherwise)", "",
               note="direct_face present / absent")
     # common_edge(iF1, iF2): for each side (A,B) of F1: if opposite_face(A,B,iF1) == iF2: return keyify(A,B)
